@@ -3,6 +3,7 @@ real engine (harness cmd/dbt), validate them with TLC against Database.tla
 (TraceDB.tla) and hand the BAD lines, classified, to the property checks."""
 import json
 import os
+import shutil
 
 import vcheck as V
 from c10 import show
@@ -66,18 +67,47 @@ def record(c, binary, mode, d, seed, extra, timeout=900):
     return summary, recs
 
 
+MAX_BYTES = 40 << 20     # a trace is validated in parts of at most this size: TLC holds the whole parsed trace in memory
+MAX_LINES = int(os.environ.get("VERIF_MAX_LINES", "12000"))
+
+
 def validate(c, d, timeout=3000):
-    V.stage_spec(d, DB_SPECS)
-    r = V.tlc(d, "TraceDB.tla", cfg="TraceDB.cfg", timeout=timeout)
-    c.add_tlc(r)
-    if r.violated:
-        raise V.Inconclusive("TraceDB stopped: %s\n%s" % (r.violated, V.tail(r.output, 30)))
+    """TLC (TraceDB) over d/trace.ndjson.  Every line is self-contained, so a large trace is cut into parts that are
+    validated one after the other; the line numbers of the BAD records refer to the whole trace."""
     lines = open(os.path.join(d, "trace.ndjson")).read().splitlines()
-    indom = sum(1 for l in r.output.splitlines() if l.startswith('<<"INDOM"'))
-    outdom = sum(1 for l in r.output.splitlines() if l.startswith('<<"OUTDOM"'))
+    parts, cur, size = [], [], 0
+    for l in lines:
+        if cur and (size + len(l) > MAX_BYTES or len(cur) >= MAX_LINES):
+            parts.append(cur)
+            cur, size = [], 0
+        cur.append(l)
+        size += len(l) + 1
+    parts.append(cur)
+    bads, offset, indom, outdom = [], 0, 0, 0
+    for i, part in enumerate(parts):
+        pd = d
+        if len(parts) > 1:
+            pd = os.path.join(d, "part-%d" % i)
+            os.makedirs(pd)
+            with open(os.path.join(pd, "trace.ndjson"), "w") as f:
+                f.write("\n".join(part) + "\n")
+            shutil.copy(os.path.join(d, "strings.json"), os.path.join(pd, "strings.json"))
+        V.stage_spec(pd, DB_SPECS)
+        r = V.tlc(pd, "TraceDB.tla", cfg="TraceDB.cfg", timeout=timeout)
+        c.add_tlc(r)
+        if r.violated:
+            raise V.Inconclusive("TraceDB stopped: %s\n%s" % (r.violated, V.tail(r.output, 30)))
+        indom += sum(1 for l in r.output.splitlines() if l.startswith('<<"INDOM"'))
+        outdom += sum(1 for l in r.output.splitlines() if l.startswith('<<"OUTDOM"'))
+        for b in V.tlc_prints(r.output, "BAD"):
+            b["l"] += offset
+            bads.append(b)
+        offset += len(part)
+        if len(parts) > 1:
+            shutil.rmtree(pd, ignore_errors=True)
     c.add("calls_in_query_and_sort_domain", indom)
     c.add("calls_outside_domain_selection_not_judged", outdom)
-    return V.tlc_prints(r.output, "BAD"), lines
+    return bads, lines
 
 
 def judge(c, prop, bads, lines, recs):
